@@ -4,8 +4,9 @@ Engine P0 (real code up to compute_parameters_first_round, no LP); workload-driv
 simulated dimension is the randomised greenhouse / rotation timers.
 
 "Amount grown" is observed in the real OutdoorCrops object between `calculate_monthly_production`
-and `set_crop_production_minus_greenhouse_area` (run-time wrappers, engine_p0) and cross-checked
-against the C08 reference calendar model; the greenhouse fraction is the array that method receives.
+and `set_crop_production_minus_greenhouse_area` (run-time wrappers, engine_p0); the greenhouse fraction
+is the array that method receives. The C08 reference calendar model is used for the documented greenhouse
+ramp and for attributing deviations to integer truncation.
 
 Clauses
   land_identity            production[m] == grown[m] x (1 - greenhouse fraction[m]) x (1 - distribution waste),
@@ -45,8 +46,8 @@ RULE = (
 )
 ASSUMPTIONS = [
     "the code applies (1 - distribution waste) after the land factor; the identity is checked with that factor",
-    "'amount grown' = OutdoorCrops.KCALS_GROWN / NO_RELOCATION_KCALS_GROWN observed between the two methods; it is "
-    "additionally required to equal the C08 reference (1e-12), so the land identity does not rest on the code's own state",
+    "'amount grown' = OutdoorCrops.KCALS_GROWN / NO_RELOCATION_KCALS_GROWN observed between the two methods; its "
+    "agreement with the C08 reference calendar model is counted as a probe (a disagreement is C08's finding, not C09's)",
     "'zero until its delay has passed' is decided on months < GREENHOUSE_MONTHS; the further 5 planting-to-harvest months "
     "belong to the documented ramp clause",
     "tolerance 1e-12 relative; pair clauses allow 1e-12 relative below the partner",
@@ -139,11 +140,11 @@ def check_job(r, V):
         grown = np.where(np.arange(n) >= change, grown_r, grown_p)
     else:
         grown = grown_p
-    # the observed amount grown must be what the calendar model says (otherwise the identity below would
-    # rest on the code's own state only)
+    # "amount grown" is the real object's own series; whether it follows the calendar is C08's question, not
+    # C09's. A disagreement with the C08 reference is only counted (probe), never alarmed here.
     V.resid("grown_vs_reference", worst(grown, ref["_grown"])[1])
-    V.check("land_identity", close(grown, ref["_grown"]), {"branch": branch, "kind": "grown_differs_from_calendar_model"},
-            lambda: _wit(r, month=worst(grown, ref["_grown"])[0]), "observed amount grown differs from the reference calendar model")
+    if not close(grown, ref["_grown"]):
+        r.obs["grown_differs_from_calendar_model"] = True
 
     # ---- land identity
     before_waste = grown * (1 - f)
@@ -263,6 +264,8 @@ def evaluate(results, spec, V, probes):
         evaluations += 1
         b = engine_p0.branch_of(r.inputs)
         probes["branch:" + b] = probes.get("branch:" + b, 0) + 1
+        if r.obs.get("grown_differs_from_calendar_model"):
+            probes["grown_differs_from_calendar_model(C08 matter)"] = probes.get("grown_differs_from_calendar_model(C08 matter)", 0) + 1
         if on and r.inputs["ADD_OUTDOOR_GROWING"]:
             nontrivial.append(engine_p0.job_case_digest(r))
             if float(np.max(r.series["outdoor_crops"])) < 100:
